@@ -366,9 +366,98 @@ fn disthdr(a: &[String]) -> ! {
     std::process::exit(0)
 }
 
+// largest single allocation request seen since the last reset (capsite mode)
+struct Counting;
+static MAX_REQ: std::sync::atomic::AtomicUsize = std::sync::atomic::AtomicUsize::new(0);
+unsafe impl std::alloc::GlobalAlloc for Counting {
+    unsafe fn alloc(&self, l: std::alloc::Layout) -> *mut u8 {
+        MAX_REQ.fetch_max(l.size(), std::sync::atomic::Ordering::Relaxed);
+        if l.size() > (1usize << 33) {
+            return std::ptr::null_mut();
+        }
+        unsafe { std::alloc::System.alloc(l) }
+    }
+    unsafe fn dealloc(&self, p: *mut u8, l: std::alloc::Layout) {
+        unsafe { std::alloc::System.dealloc(p, l) }
+    }
+    unsafe fn realloc(&self, p: *mut u8, l: std::alloc::Layout, n: usize) -> *mut u8 {
+        MAX_REQ.fetch_max(n, std::sync::atomic::Ordering::Relaxed);
+        unsafe { std::alloc::System.realloc(p, l, n) }
+    }
+}
+#[global_allocator]
+static GLOBAL: Counting = Counting;
+
+/// `capsite <parser> <wire fields...>`: a short input whose length fields carry the model's values is decoded; a single allocation
+/// request above 8 MiB for an input of a few dozen bytes is the violation (exit 101)
+fn capsite(a: &[String]) -> ! {
+    let w: Vec<u64> = a[3..].iter().map(|x| x.parse().unwrap()).collect();
+    let g = |i: usize| w.get(i).copied().unwrap_or(0);
+    let mut b: Vec<u8> = vec![131];
+    let atom = [119u8, 1, b'm'];
+    match a[2].as_str() {
+        "parse_list" => {
+            b.push(108);
+            b.extend_from_slice(&(g(0) as u32).to_be_bytes());
+            b.extend_from_slice(&[97, 1, 106]);
+        }
+        "parse_large_tuple" => {
+            b.push(105);
+            b.extend_from_slice(&(g(0) as u32).to_be_bytes());
+            b.extend_from_slice(&[97, 1]);
+        }
+        "parse_small_tuple" => {
+            b.push(104);
+            b.push(g(0) as u8);
+            b.extend_from_slice(&[97, 1]);
+        }
+        "parse_new_fun_ext" => {
+            b.push(112);
+            b.extend_from_slice(&(g(0) as u32).to_be_bytes());
+            b.push(g(1) as u8);
+            b.extend_from_slice(&[0u8; 16]);
+            b.extend_from_slice(&(g(2) as u32).to_be_bytes());
+            b.extend_from_slice(&(g(3) as u32).to_be_bytes());
+            b.extend_from_slice(&atom);
+            b.extend_from_slice(&[97, 0, 97, 0, 88]);
+            b.extend_from_slice(&atom);
+            b.extend_from_slice(&[0, 0, 0, 1, 0, 0, 0, 2, 0, 0, 0, 3]);
+        }
+        "parse_newer_reference" => {
+            b.push(90);
+            b.extend_from_slice(&(g(0) as u16).to_be_bytes());
+            b.extend_from_slice(&atom);
+            b.extend_from_slice(&[0, 0, 0, 3, 0, 0, 0, 7]);
+        }
+        "parse_new_reference_ext" => {
+            b.push(114);
+            b.extend_from_slice(&(g(0) as u16).to_be_bytes());
+            b.extend_from_slice(&atom);
+            b.extend_from_slice(&[3, 0, 0, 0, 7]);
+        }
+        _ => {
+            b.push(80);
+            b.extend_from_slice(&(g(0) as u32).to_be_bytes());
+            b.extend_from_slice(&[0x78, 0x9c, 1, 2, 3]);
+        }
+    }
+    MAX_REQ.store(0, std::sync::atomic::Ordering::SeqCst);
+    let r = std::panic::catch_unwind(|| erltf::decode(&b).is_ok());
+    let m = MAX_REQ.load(std::sync::atomic::Ordering::SeqCst);
+    if r.is_err() || m > (8 << 20) {
+        eprintln!("REPLAY: decoding {} bytes ({}) {} and requested a single allocation of {} bytes", b.len(), a[2], if r.is_err() { "panicked" } else { "returned" }, m);
+        std::process::exit(101);
+    }
+    println!("REPLAY: {} on {} bytes: largest single allocation request {} bytes", a[2], b.len(), m);
+    std::process::exit(0)
+}
+
 fn main() {
     let a: Vec<String> = std::env::args().collect();
     let kind = a[1].as_str();
+    if kind == "capsite" {
+        capsite(&a);
+    }
     if kind == "disthdr" || kind == "disthdr_tuple" {
         disthdr(&a);
     }
